@@ -24,7 +24,7 @@ from pathlib import Path
 
 from .. import pool, world
 from ..driver import clone
-from ..util import derive_seed, digest, digest_bytes
+from ..util import derive_seed, digest, digest_bytes, is_domain_error
 from ..worlds import confidence as W
 from ..worlds import history as H
 
@@ -349,6 +349,9 @@ def run_scenario(scn, workdir):
         return out
 
     if rep_c["outcome"] != "ok":
+        if not is_domain_error(rep_c.get("etype"), rep_c.get("error"), rep_c.get("site") or rep_c.get("error")):
+            return viol("run_failed", f"the run fails even in a clean directory: {rep_c.get('error')}",
+                        etype=rep_c.get("etype"), site=rep_c.get("site"))
         out.update(status="uninformative", message=f"clean-directory run fails: {rep_c.get('error')}"[:200])
         return out
     dkinds = sorted(k for k, v in _classify_debris(debris).items() if v)
@@ -445,6 +448,8 @@ def _run_cli_history(scn, workdir):
         if rp["outcome"] in ("timeout", "harness_error", "killed"):
             raise RuntimeError(f"observed CLI step failed: {rp}")
     if rep_c["outcome"] != "ok":
+        if not is_domain_error(rep_c.get("etype"), rep_c.get("error"), rep_c.get("error")):
+            return viol("run_failed", f"the CLI fails even in a clean directory: {rep_c.get('error')}", etype=rep_c.get("etype"))
         out.update(status="uninformative", message=f"clean CLI run fails: {rep_c.get('error')}"[:200])
         return out
     if rep_d["outcome"] != "ok":
